@@ -47,3 +47,63 @@ Print Assumptions C04_push_and.
 Theorem C04_new_builder_inv : forall dedup inputs, inv (new_builder dedup inputs).
 Proof. exact inv_new. Qed.
 Print Assumptions C04_new_builder_inv.
+
+(* ---- pruning + final numbering ---- *)
+From GV Require Import Circuit.SsaProofs Builder.BuildProofs Builder.Requests.
+
+(* build: for every reachable builder state and every list of requested output wires, the
+   circuit returned by build (after removing the gates that reach no output and
+   renumbering to the final numbering) passes its own validation and outputs, on every
+   input, exactly the denotations of the 161 panic-record wires followed by the requested
+   wires. *)
+Theorem C04_build_sound : forall b pw outs,
+  inv b -> valids b pw -> valids b outs -> pw ++ outs <> [] ->
+  2 < b_shift b -> counter b + (b_shift b - 2) <= MAX_GATES ->
+  exists c, build b pw outs = Ok c /\
+    ssa_validate c = None /\
+    input_gates c = b_inputs b /\
+    length (output_gates c) = length (pw ++ outs) /\
+    forall ins inp, load_inputs (b_inputs b) ins = Some inp ->
+      ssa_eval c ins = Some (map (den inp b) (pw ++ outs)).
+Proof. exact build_sound. Qed.
+Print Assumptions C04_build_sound.
+
+(* THE HEADLINE: for any sequence of gate requests (xor / and / or / eq / not / mux over
+   earlier results, inputs and the two constants), with de-duplication on or off, the built
+   circuit computes the same outputs as the same requests executed literally on Booleans
+   with no simplification at all ([lit_reqs]); the 161 leading outputs are the bits of the
+   untouched panic record. *)
+Theorem C04_builder : forall dedup inputs rs outs ins inp vs ovs,
+  load_inputs inputs ins = Some inp -> 1 <= sumN inputs ->
+  lit_reqs inp [] rs = Some vs ->
+  mapM (lit_opnd inp vs) outs = Some ovs ->
+  exists b hs ows,
+    run_reqs (new_builder dedup inputs) [] rs = Ok (b, hs) /\
+    mapM (resolve hs) outs = Some ows /\
+    (counter b + (b_shift b - 2) <= MAX_GATES ->
+     exists c, build b panic_ok_wires ows = Ok c /\
+       ssa_validate c = None /\
+       ssa_eval c ins = Some (panic_ok_bits ++ ovs)).
+Proof. exact requests_then_build. Qed.
+Print Assumptions C04_builder.
+
+(* consequently dedup on and dedup off compute the same function *)
+Theorem C04_dedup_irrelevant : forall inputs rs outs ins inp vs ovs,
+  load_inputs inputs ins = Some inp -> 1 <= sumN inputs ->
+  lit_reqs inp [] rs = Some vs -> mapM (lit_opnd inp vs) outs = Some ovs ->
+  forall b1 hs1 ows1 c1 b2 hs2 ows2 c2,
+    run_reqs (new_builder true inputs) [] rs = Ok (b1, hs1) -> mapM (resolve hs1) outs = Some ows1 ->
+    run_reqs (new_builder false inputs) [] rs = Ok (b2, hs2) -> mapM (resolve hs2) outs = Some ows2 ->
+    counter b1 + (b_shift b1 - 2) <= MAX_GATES -> counter b2 + (b_shift b2 - 2) <= MAX_GATES ->
+    build b1 panic_ok_wires ows1 = Ok c1 -> build b2 panic_ok_wires ows2 = Ok c2 ->
+    ssa_eval c1 ins = ssa_eval c2 ins.
+Proof.
+  intros inputs rs outs ins inp vs ovs Hl Hp Hr Ho b1 hs1 ows1 c1 b2 hs2 ows2 c2 R1 O1 R2 O2 M1 M2 B1 B2.
+  destruct (requests_then_build true inputs rs outs ins inp vs ovs Hl Hp Hr Ho) as (b1' & hs1' & ows1' & R1' & O1' & K1).
+  destruct (requests_then_build false inputs rs outs ins inp vs ovs Hl Hp Hr Ho) as (b2' & hs2' & ows2' & R2' & O2' & K2).
+  rewrite R1 in R1'. injection R1' as <- <-. rewrite O1 in O1'. injection O1' as <-.
+  rewrite R2 in R2'. injection R2' as <- <-. rewrite O2 in O2'. injection O2' as <-.
+  destruct (K1 M1) as (c1' & B1' & _ & E1). destruct (K2 M2) as (c2' & B2' & _ & E2).
+  rewrite B1 in B1'. injection B1' as <-. rewrite B2 in B2'. injection B2' as <-. congruence.
+Qed.
+Print Assumptions C04_dedup_irrelevant.
